@@ -99,9 +99,13 @@ def _pad_face_connections(
 
     # Detect all the axes we have to deal with during padding
     # all the axes defined in the connections + the axes of the padding width should give all axes we need to iterate over
-    pad_axes = list(
-        set(_get_all_connection_axes(connections, facedim) + list(padding_width.keys()))
+    # (in the order of the grid's axes: a set has no reproducible order, and the order decides the halo corners)
+    pad_axes_wanted = set(
+        _get_all_connection_axes(connections, facedim) + list(padding_width.keys())
     )
+    pad_axes = [axname for axname in grid.axes if axname in pad_axes_wanted] + [
+        axname for axname in padding_width.keys() if axname not in grid.axes
+    ]
 
     padding_width = {axname: padding_width.get(axname, (0, 0)) for axname in pad_axes}
 
